@@ -15,6 +15,23 @@
 #define ALN_CONTROLLER_IMPORT
 #include "aln_controller.h"
 
+#ifdef KALIGN_VERIF
+/* Report begin/end of every forward, backward and meet-up call without
+   touching the call sites: a function-like macro is not expanded when the
+   name is parenthesised, so (f)(m) below is the real function. */
+#include "kalign_verif.h"
+#define KV_DP(ev,m,k) KALIGN_VERIF_EVENT((ev),(m),NULL,(k),0,0)
+#define aln_seqseq_foward(m) (KV_DP(KV_DP_FWD_BEGIN,m,0), (aln_seqseq_foward)(m), KV_DP(KV_DP_FWD_END,m,0))
+#define aln_seqseq_backward(m) (KV_DP(KV_DP_BWD_BEGIN,m,0), (aln_seqseq_backward)(m), KV_DP(KV_DP_BWD_END,m,0))
+#define aln_seqseq_meetup(m,o,me,t,s) (KV_DP(KV_DP_MEETUP,m,0), (aln_seqseq_meetup)(m,o,me,t,s))
+#define aln_seqprofile_foward(m) (KV_DP(KV_DP_FWD_BEGIN,m,1), (aln_seqprofile_foward)(m), KV_DP(KV_DP_FWD_END,m,1))
+#define aln_seqprofile_backward(m) (KV_DP(KV_DP_BWD_BEGIN,m,1), (aln_seqprofile_backward)(m), KV_DP(KV_DP_BWD_END,m,1))
+#define aln_seqprofile_meetup(m,o,me,t,s) (KV_DP(KV_DP_MEETUP,m,1), (aln_seqprofile_meetup)(m,o,me,t,s))
+#define aln_profileprofile_foward(m) (KV_DP(KV_DP_FWD_BEGIN,m,2), (aln_profileprofile_foward)(m), KV_DP(KV_DP_FWD_END,m,2))
+#define aln_profileprofile_backward(m) (KV_DP(KV_DP_BWD_BEGIN,m,2), (aln_profileprofile_backward)(m), KV_DP(KV_DP_BWD_END,m,2))
+#define aln_profileprofile_meetup(m,o,me,t,s) (KV_DP(KV_DP_MEETUP,m,2), (aln_profileprofile_meetup)(m,o,me,t,s))
+#endif
+
 
 static int aln_continue(struct aln_mem* m,float input_states[],int old_cor[],int meet,int transition, uint8_t serial);
 
